@@ -119,7 +119,10 @@ Step1 ==
                   stillOpen == {c \in DOMAIN lc : lc[c].h \in failed /\ lc[c].life = "open"}
                   v3 == Check(stillOpen = {}, "FaultClosesItsConnection", stillOpen, v2)
               IN Same(v3)
-         [] e.ev = "StopReq" -> Step(lc, loopg, hs, pend, req, [eng EXCEPT !.stopReq = TRUE, !.bootStop = (@ \/ e.src = "OnBoot")], viols)
+         \* (the ticker is still alive when the shutdown is asked for: the tick that was due more than 5 s ago has begun)
+         [] e.ev = "StopReq" -> Step(lc, loopg, hs, pend, req, [eng EXCEPT !.stopReq = TRUE, !.bootStop = (@ \/ e.src = "OnBoot")],
+                                     Check(~(eng.ticker /\ ~eng.stopReq /\ eng.tickN >= 1 /\ ~eng.tickBusy /\ "ms" \in DOMAIN e) \/ eng.tickDue + 5000 >= e.ms,
+                                           "TickerKeepsTicking", <<eng.tickN, eng.tickDue, IF "ms" \in DOMAIN e THEN e.ms ELSE 0>>, viols))
          [] e.ev = "StopRet" ->
               \* Stop returns nil only after the engine has fully shut down
               LET open == {c \in DOMAIN lc : lc[c].life = "open"} IN
